@@ -1,0 +1,41 @@
+//go:build verif
+// +build verif
+
+package linker
+
+// Verification hook (add-only, only compiled with -tags verif) for the /verif kernel `smchunk`.
+
+import (
+	"github.com/evanw/esbuild/internal/bundler"
+	"github.com/evanw/esbuild/internal/config"
+	"github.com/evanw/esbuild/internal/fs"
+	"github.com/evanw/esbuild/internal/graph"
+	"github.com/evanw/esbuild/internal/sourcemap"
+)
+
+type VerifSMResult struct {
+	Chunk       sourcemap.Chunk
+	Offset      sourcemap.LineColumnOffset
+	SourceIndex uint32
+	IsNullEntry bool
+}
+
+// VerifGenerateSourceMapForChunk runs the real generateSourceMapForChunk on a linker context that holds
+// nothing but the given input files, options and file system.
+func VerifGenerateSourceMapForChunk(
+	fsys fs.FS, options *config.Options, files []graph.InputFile, results []VerifSMResult,
+	chunkAbsDir string, dataForSourceMaps []bundler.DataForSourceMap, canHaveShifts bool,
+) sourcemap.SourceMapPieces {
+	c := &linkerContext{options: options, fs: fsys}
+	c.graph.Files = make([]graph.LinkerFile, len(files))
+	for i, f := range files {
+		c.graph.Files[i].InputFile = f
+	}
+	rs := make([]compileResultForSourceMap, len(results))
+	for i, r := range results {
+		rs[i] = compileResultForSourceMap{
+			sourceMapChunk: r.Chunk, generatedOffset: r.Offset, sourceIndex: r.SourceIndex, isNullEntry: r.IsNullEntry,
+		}
+	}
+	return c.generateSourceMapForChunk(rs, chunkAbsDir, dataForSourceMaps, canHaveShifts)
+}
